@@ -14,7 +14,8 @@ CFG = {'streams': [{'name': 'C05x',
                             '= AST differs, 2 = only locations differ, 3 = different ParseError variant, 4 = other location, 5 = ORACLE_MISS, 6 = '
                             'the model reaches a panic site, 7 = model out of fuel, 8 = the implementation panicked or took longer than 2 s, 9 = Ok '
                             'vs Err, 10 = parsed AST is not the intended one (not used in this stream), 11 = scan patterns differ, 12 = error '
-                            'payload differs'}],
+                            'payload differs',
+              'model_only_codes': [3, 4, 12]}],
  'rule': 'accepted generated programs incl. ill-typed ones (0-2 injected runtime faults, graph nodes rendered to text allowed) x generated sources '
          'with 0-3 injected syntax faults (ERROR/MISSING nodes, non-ASCII text) x both modes; every run in its own thread with a 10 s watchdog and '
          'catch_unwind; errors are rendered plain and pretty; non-trivial = failing run or tree with syntax errors | parser part: see C07.py, stream '
